@@ -10,7 +10,7 @@
 From stdpp Require Import gmap.
 From Coq Require Import ZArith List.
 From V Require Import Base.Codec Base.Res Sched.LedgerModel Sched.StmtModel Sched.LedgerCodec Sched.GangModel
-                      Sched.CycleModel Sched.CycleCodec Sched.CycleEntry Sched.GangValid Sched.GangLemmasMain
+                      Sched.CycleModel Sched.CycleCodec Sched.CycleEntry Sched.GangValid Sched.GangLemmasMain Sched.GangLemmasAudit
                       Sched.SubGroupModel Sched.SubGroupLaw.
 Import ListNotations.
 Open Scope Z_scope.
@@ -46,7 +46,11 @@ Definition count_allocate (acts : list Z) : nat := length (filter (fun a => a =?
 
 Definition law_guard (c : cycle_case) : bool :=
   if (1 <? Z.of_nat (count_allocate (cc_actions c))) then true
-  else guardedb (cc_eps c) (world_of c) (cc_cops c).
+  else
+    (* the guard itself, and the one-allocate shape from which the theorem derives it: the snapshot
+       holds no tentative allocation and no job is attempted again after a non-committed attempt *)
+    guardedb (cc_eps c) (world_of c) (cc_cops c) &&
+    no_tentativeb (w_sess (world_of c)) && kept_freeb (cc_eps c) (world_of c) ∅ (cc_cops c).
 
 Definition entry (sel : Z) (toks : list Z) : list Z :=
   match sel with
